@@ -175,6 +175,21 @@ func (m *gmachine) exec(ev map[string]any) {
 		m.regs[outName] = c
 		ev["equal"] = c.Equal(a) && a.Equal(c)
 		m.logHeap(ev, outName, str(ev, "a"))
+	case "Pair":
+		// one ordered pair of the exported universe through the three merging operations, operands compared afterwards
+		x, y := proj.ToNodeList(obj(ev, "x")), proj.ToNodeList(obj(ev, "y"))
+		bx, _ := json.Marshal(proj.NodeList(x))
+		by, _ := json.Marshal(proj.NodeList(y))
+		ev["u"] = proj.NodeList(x.Union(y))
+		ev["ix"] = proj.NodeList(x.Intersect(y))
+		ax, _ := json.Marshal(proj.NodeList(x))
+		ay, _ := json.Marshal(proj.NodeList(y))
+		ev["same"] = string(ax) == string(bx) && string(ay) == string(by)
+		x.Add(y)
+		ev["ad"] = proj.NodeList(x)
+		ay2, _ := json.Marshal(proj.NodeList(y))
+		ev["argsame"] = string(ay2) == string(by)
+		return
 	case "CopyElem":
 		// the element-level copies (node, edge, person, external reference): same content, equal, no shared storage
 		k := integer(ev, "k")
